@@ -138,6 +138,20 @@ def _simple_arg(e: ast.AST) -> bool:
     return False
 
 
+def _pure_arith(e: ast.AST) -> bool:
+    """an expression over plain names and constants (`index + 1`, `-n`, `(a, b)`): its value cannot change
+    while the helper's body runs, so it may be substituted for the parameter wherever that is read"""
+    if isinstance(e, (ast.Name, ast.Constant)):
+        return True
+    if isinstance(e, ast.BinOp):
+        return _pure_arith(e.left) and _pure_arith(e.right)
+    if isinstance(e, ast.UnaryOp):
+        return _pure_arith(e.operand)
+    if isinstance(e, ast.Tuple):
+        return all(_pure_arith(x) for x in e.elts)
+    return False
+
+
 def _own_nodes(fn: ast.AST):
     """nodes of the function body, not descending into nested scopes (lambdas / comprehensions are walked:
     their variables are handled by renaming)"""
@@ -306,6 +320,8 @@ def _expand(h: _Helper, call: ast.Call, caller: ast.AST, targets: Optional[ast.A
     """(statements to insert, expression that replaces the call or None).  want: 'expr' | 'stmt' | 'assign' | 'return'"""
     fn = h.node
     is_method = h.cls is not None and not h.static
+    if is_method and not isinstance(call.func, ast.Attribute):
+        return None
     binding = _bind(fn, call, is_method)
     if binding is None:
         return None
@@ -328,7 +344,7 @@ def _expand(h: _Helper, call: ast.Call, caller: ast.AST, targets: Optional[ast.A
         if isinstance(n, ast.Name):
             uses[n.id] = uses.get(n.id, 0) + 1
     for p, v in binding.items():
-        if p not in stored and (_simple_arg(v) or uses.get(p, 0) <= 1 and h.kind == "expr"):
+        if p not in stored and (_simple_arg(v) or uses.get(p, 0) <= 1 and h.kind == "expr" or _pure_arith(v) and uses.get(p, 0) <= 2):
             names[p] = v
         elif p not in stored and uses.get(p, 0) == 0:
             if any(isinstance(x, ast.Call) for x in ast.walk(v)):
@@ -411,21 +427,46 @@ def _expand(h: _Helper, call: ast.Call, caller: ast.AST, targets: Optional[ast.A
     return out, result
 
 
-def _inline_in_function(caller: ast.AST, helpers: Dict[Tuple[Optional[str], str], _Helper], cls_name: Optional[str]) -> int:
-    """one pass over the statement lists of `caller`; returns the number of call sites replaced"""
+def _inline_in_function(caller: ast.AST, helpers: Dict[Tuple[Optional[str], str], _Helper], cls_name: Optional[str], new_helpers: Optional[Dict[str, _Helper]] = None, used: Optional[Set[str]] = None) -> int:
+    """one pass over the statement lists of `caller`; returns the number of call sites replaced.
+    new_helpers: package-wide table of helpers that the audited tree does not define (see inline_helpers);
+    used: receives the names of those that were expanded into this caller"""
     count = 0
+    new_helpers = new_helpers or {}
 
     def lookup(call: ast.Call) -> Optional[_Helper]:
+        h_ = lookup0(call)
+        if h_ is not None and used is not None:
+            for k_ in (h_.node.name, (cls_name or "") + "." + h_.node.name):
+                if new_helpers.get(k_) is h_:
+                    used.add(k_)
+        return h_
+
+    def lookup0(call: ast.Call) -> Optional[_Helper]:
         f = call.func
         if isinstance(f, ast.Name):
-            return helpers.get((None, f.id))
+            h_ = helpers.get((None, f.id))
+            if h_ is None:
+                h_ = new_helpers.get(f.id)
+                if h_ is not None and h_.cls is not None and not h_.static:
+                    h_ = None
+            return h_
         if isinstance(f, ast.Attribute) and isinstance(f.value, ast.Name) and f.value.id == "self" and cls_name is not None:
-            return helpers.get((cls_name, f.attr))
+            h_ = helpers.get((cls_name, f.attr))
+            if h_ is None:
+                # a method new to the tree called on self inside its own class: no other receiver type in play
+                h_ = new_helpers.get(cls_name + "." + f.attr)
+            if h_ is not None:
+                return h_
         if isinstance(f, ast.Attribute) and isinstance(f.value, ast.Name):
             # ClassName.helper(..) for a static helper
             h_ = helpers.get((f.value.id, f.attr))
             if h_ is not None and h_.static:
                 return h_
+        if isinstance(f, ast.Attribute) and f.attr in new_helpers and _simple_arg(f.value):
+            # a definition new to the tree, unique in the package: `module.helper(..)`, `Class.static(..)` or
+            # `obj.method(..)` (the receiver is bound to the method's first parameter)
+            return new_helpers[f.attr]
         return None
 
     def expr_sites(node: ast.AST) -> None:
@@ -764,6 +805,69 @@ def expand_forwarders(trees: Dict[str, ast.Module]) -> List[str]:
     return notes
 
 
+def def_digest(fn: ast.AST) -> str:
+    """digest of a definition's parameters and body (docstring, annotations, decorators' order and the
+    definition's own name left out): two definitions with the same digest are the same code under two names"""
+    import hashlib
+
+    node = copy.deepcopy(fn)
+    own = getattr(node, "name", "")
+    body = list(getattr(node, "body", []))
+    if body and isinstance(body[0], ast.Expr) and isinstance(body[0].value, ast.Constant) and isinstance(body[0].value.value, str):
+        body = body[1:]
+    parts = []
+    if isinstance(node, _FUNC):
+        a = node.args
+        parts.append(",".join(x.arg for x in a.posonlyargs + a.args + a.kwonlyargs) + "|" + (a.vararg.arg if a.vararg else "") + "|" + (a.kwarg.arg if a.kwarg else ""))
+        parts.append(",".join(ast.dump(d) for d in a.defaults + [d for d in a.kw_defaults if d is not None]))
+    for st in body:
+        for n in ast.walk(st):
+            if isinstance(n, ast.Name) and n.id == own:
+                n.id = "<self>"
+            elif isinstance(n, ast.arg):
+                n.annotation = None
+            elif isinstance(n, ast.AnnAssign):
+                n.annotation = ast.Constant(value=None)
+            elif isinstance(n, _FUNC):
+                n.returns = None
+        parts.append(ast.dump(st, annotate_fields=False))
+    return hashlib.sha1("\n".join(parts).encode()).hexdigest()[:16]
+
+
+def renamed_definitions(trees: Dict[str, ast.Module]) -> Dict[str, str]:
+    """{new name: audited name} for definitions that were merely renamed: the audited tree defines A
+    (sa/baseline_defs.py), the current tree does not, and exactly one definition F that the audited tree
+    does not have carries A's body digest."""
+    try:
+        from .baseline_defs import DEFS, DIGESTS
+    except Exception:
+        return {}
+    defined: Dict[str, List[ast.AST]] = {}
+    for t in trees.values():
+        for n in ast.walk(t):
+            if isinstance(n, _FUNC + (ast.ClassDef,)):
+                defined.setdefault(n.name, []).append(n)
+    missing = [a for a in DEFS if a not in defined]
+    if not missing:
+        return {}
+    by_digest: Dict[str, List[str]] = {}
+    for nm, nodes in defined.items():
+        if nm in DEFS or nm.startswith("__"):
+            continue
+        for nd in nodes:
+            by_digest.setdefault(def_digest(nd), []).append(nm)
+    out: Dict[str, str] = {}
+    for a in missing:
+        cands = set()
+        for dg in DIGESTS.get(a, []):
+            cands |= set(by_digest.get(dg, []))
+        if len(cands) == 1:
+            f = cands.pop()
+            if f not in out:
+                out[f] = a
+    return out
+
+
 def normalise_names(trees: Dict[str, ast.Module], anchors: Set[str]) -> List[str]:
     """A function the rules know by name that was merely made private or public (`update_exiting` ->
     `_update_exiting`, `_doms` -> `doms`) is read under the name the rules use: when the library defines F,
@@ -788,6 +892,9 @@ def normalise_names(trees: Dict[str, ast.Module], anchors: Set[str]) -> List[str
         cands = [a for a in by_stem.get(f.strip("_"), []) if a not in defined]
         if len(cands) == 1:
             ren[f] = cands[0]
+    # a pure rename (same body under a new name) of a definition of the audited tree
+    same_body = {f: a for f, a in renamed_definitions(trees).items() if f not in ren and a not in ren.values()}
+    ren.update(same_body)
     if not ren:
         return notes
     for t in trees.values():
@@ -806,7 +913,7 @@ def normalise_names(trees: Dict[str, ast.Module], anchors: Set[str]) -> List[str
             elif isinstance(n, ast.keyword) and n.arg in ren:
                 pass
     for f, a in sorted(ren.items()):
-        notes.append(f"function {f} is read as {a} (same stem; the rules use the latter name)")
+        notes.append(f"function {f} is read as {a} ({'same body as in the audited tree' if f in same_body else 'same stem'}; the rules use the latter name)")
     return notes
 
 
@@ -895,6 +1002,7 @@ def inline_helpers(trees: Dict[str, ast.Module], anchors: Optional[Set[str]] = N
     notes: List[str] = normalise_names(trees, anchors)
     notes += expand_forwarders(trees)
     notes += expand_context_managers(trees)
+    notes += inline_package_constants(trees)
     # method names defined in more than one class anywhere are subject to dispatch
     method_count: Dict[str, int] = {}
     for t in trees.values():
@@ -903,6 +1011,8 @@ def inline_helpers(trees: Dict[str, ast.Module], anchors: Optional[Set[str]] = N
                 for s in n.body:
                     if isinstance(s, _FUNC):
                         method_count[s.name] = method_count.get(s.name, 0) + 1
+    new_helpers, new_home = _new_helpers(trees, anchors, method_count)
+    notes += expand_new_properties(trees, anchors, method_count)
     for mod, tree in trees.items():
         helpers: Dict[Tuple[Optional[str], str], _Helper] = {}
         for st in tree.body:
@@ -916,22 +1026,37 @@ def inline_helpers(trees: Dict[str, ast.Module], anchors: Optional[Set[str]] = N
                         k = _classify(s)
                         if k and (s.args.args or s.decorator_list) and not _calls_name(s, s.name):
                             helpers[(st.name, s.name)] = _Helper(s, st, k)
-        if not helpers:
+        if not helpers and not new_helpers:
             continue
+        used: Set[str] = set()
         for _round in range(3):
             n = 0
             for st in tree.body:
                 if isinstance(st, _FUNC):
-                    n += _inline_in_function(st, helpers, None)
+                    n += _inline_in_function(st, helpers, None, new_helpers, used)
                     for inner in ast.walk(st):
                         if isinstance(inner, _FUNC) and inner is not st:
-                            n += _inline_in_function(inner, helpers, None)
+                            n += _inline_in_function(inner, helpers, None, new_helpers, used)
                 elif isinstance(st, ast.ClassDef):
                     for s in st.body:
                         if isinstance(s, _FUNC):
-                            n += _inline_in_function(s, helpers, st.name)
+                            n += _inline_in_function(s, helpers, st.name, new_helpers, used)
             if n == 0:
                 break
+        # global names a helper from another module mentions must be visible where it was expanded: the
+        # binding of the helper's module is replicated (analysis only)
+        for hn in sorted(used):
+            home = new_home[hn]
+            if home == mod:
+                continue
+            h = new_helpers[hn]
+            free = {x.id for x in ast.walk(h.node) if isinstance(x, ast.Name)} - {a.arg for a in h.node.args.args + h.node.args.kwonlyargs} - _stored_names(h.node)
+            missing = (free & _module_bindings(trees[home])) - _module_bindings(tree)
+            for nm in sorted(missing):
+                imp = _import_for(trees, home, nm)
+                if imp is None:
+                    imp = ast.fix_missing_locations(ast.ImportFrom(module=home, names=[ast.alias(name=nm, asname=None)], level=0))
+                tree.body.insert(0, imp)
         # dissolve helpers that are referenced nowhere any more
         for (cname, hname), h in helpers.items():
             if not h.inlined:
@@ -955,4 +1080,299 @@ def inline_helpers(trees: Dict[str, ast.Module], anchors: Optional[Set[str]] = N
                 notes.append(f"{mod}: {(cname + '.') if cname else ''}{hname} -> {h.inlined} site(s), dissolved")
             else:
                 notes.append(f"{mod}: {(cname + '.') if cname else ''}{hname} -> {h.inlined} site(s), kept ({refs} other reference(s))")
+    # helpers new to the tree: dissolved when every reference was read through
+    done_: Set[int] = set()
+    for hkey, h in sorted(new_helpers.items()):
+        hname = h.node.name
+        if not h.inlined or id(h) in done_:
+            continue
+        done_.add(id(h))
+        new_home[hname] = new_home[hkey]
+        refs = 0
+        for t2 in trees.values():
+            for x in ast.walk(t2):
+                if isinstance(x, ast.Name) and x.id == hname:
+                    refs += 1
+                elif isinstance(x, ast.Attribute) and x.attr == hname:
+                    refs += 1
+                elif isinstance(x, ast.Constant) and x.value == hname:
+                    refs += 1
+        if refs == 0:
+            holder = h.cls.body if h.cls is not None else trees[new_home[hname]].body
+            holder.remove(h.node)
+            if h.cls is not None and not holder:
+                holder.append(ast.Pass())
+            for t2 in trees.values():
+                for st in list(t2.body):
+                    if isinstance(st, ast.ImportFrom):
+                        st.names = [a for a in st.names if a.name != hname]
+                        if not st.names:
+                            t2.body.remove(st)
+            notes.append(f"{new_home[hname]}: new helper {hname} -> {h.inlined} site(s), dissolved")
+        else:
+            notes.append(f"{new_home[hname]}: new helper {hname} -> {h.inlined} site(s), kept ({refs} other reference(s))")
+    return notes
+
+
+def _fold_constants(tree: ast.AST) -> int:
+    """`0 + 1` -> `1`, `str(0)` -> `'0'`, `'a' + 'b'` -> `'ab'`, `'x_{}'.format` stays (canonicalise turns it into
+    an f-string), a str constant inside an f-string joins the literal text, `set('0')` -> `{'0'}`"""
+    n_ = 0
+
+    def fold(v: ast.AST) -> Optional[ast.AST]:
+        if isinstance(v, ast.BinOp) and isinstance(v.left, ast.Constant) and isinstance(v.right, ast.Constant):
+            a, b = v.left.value, v.right.value
+            try:
+                if isinstance(a, int) and isinstance(b, int) and not isinstance(a, bool) and not isinstance(b, bool):
+                    if isinstance(v.op, ast.Add):
+                        return ast.Constant(value=a + b)
+                    if isinstance(v.op, ast.Sub):
+                        return ast.Constant(value=a - b)
+                    if isinstance(v.op, ast.Mult) and abs(a) < 10**6 and abs(b) < 10**6:
+                        return ast.Constant(value=a * b)
+                if isinstance(a, str) and isinstance(b, str) and isinstance(v.op, ast.Add):
+                    return ast.Constant(value=a + b)
+            except Exception:
+                return None
+        if isinstance(v, ast.Call) and isinstance(v.func, ast.Name) and v.func.id == "str" and len(v.args) == 1 and not v.keywords and isinstance(v.args[0], ast.Constant) and isinstance(v.args[0].value, (int, str)) and not isinstance(v.args[0].value, bool):
+            return ast.Constant(value=str(v.args[0].value))
+        if isinstance(v, ast.Call) and isinstance(v.func, ast.Name) and v.func.id == "set" and len(v.args) == 1 and not v.keywords and isinstance(v.args[0], ast.Constant) and isinstance(v.args[0].value, str) and len(v.args[0].value) == 1:
+            return ast.Set(elts=[ast.Constant(value=v.args[0].value)])
+        if isinstance(v, ast.JoinedStr) and any(isinstance(x, ast.FormattedValue) and isinstance(x.value, ast.Constant) and isinstance(x.value.value, (str, int)) and not isinstance(x.value.value, bool) and x.conversion == -1 and x.format_spec is None for x in v.values):
+            parts: List[ast.AST] = []
+            for x in v.values:
+                if isinstance(x, ast.FormattedValue) and isinstance(x.value, ast.Constant) and isinstance(x.value.value, (str, int)) and not isinstance(x.value.value, bool) and x.conversion == -1 and x.format_spec is None:
+                    x = ast.Constant(value=str(x.value.value))
+                if isinstance(x, ast.Constant) and parts and isinstance(parts[-1], ast.Constant):
+                    parts[-1] = ast.Constant(value=str(parts[-1].value) + str(x.value))
+                else:
+                    parts.append(x)
+            if len(parts) == 1 and isinstance(parts[0], ast.Constant):
+                return ast.Constant(value=parts[0].value)
+            return ast.JoinedStr(values=parts)
+        return None
+
+    for _ in range(4):
+        changed = 0
+        for parent in list(ast.walk(tree)):
+            for fld, val in ast.iter_fields(parent):
+                items = val if isinstance(val, list) else [val]
+                for i, v in enumerate(items):
+                    if not isinstance(v, ast.AST):
+                        continue
+                    new = fold(v)
+                    if new is not None:
+                        new = ast.copy_location(new, v)
+                        ast.fix_missing_locations(new)
+                        if isinstance(val, list):
+                            val[i] = new
+                        else:
+                            setattr(parent, fld, new)
+                        changed += 1
+        n_ += changed
+        if not changed:
+            break
+    return n_
+
+
+def inline_package_constants(trees: Dict[str, ast.Module]) -> List[str]:
+    notes: List[str] = []
+    total = 0
+    for _round in range(3):
+        n = _inline_package_constants_once(trees)
+        f = sum(_fold_constants(t) for t in trees.values())
+        total += n
+        if not n and not f:
+            break
+    if total:
+        notes.append(f"named constants: {total} use(s) of module-level literal constants read as their values")
+    return notes
+
+
+def _inline_package_constants_once(trees: Dict[str, ast.Module]) -> int:
+    """A module-level `NAME = "literal"` (ALL-CAPS or private name, str or int, bound once, never re-bound)
+    is read as its value wherever it is used: in its own module, through `from m import NAME [as X]`, and
+    through `m.NAME` for an imported module m.  Naming a literal, moving the name to another module or
+    replacing one spelling by the other leaves every rule with the same text."""
+    consts: Dict[str, Dict[str, ast.Constant]] = {}
+    for mod, t in trees.items():
+        stores: Dict[str, int] = {}
+        for n in ast.walk(t):
+            if isinstance(n, ast.Name) and isinstance(n.ctx, (ast.Store, ast.Del)):
+                stores[n.id] = stores.get(n.id, 0) + 1
+            elif isinstance(n, ast.arg):
+                stores[n.arg] = stores.get(n.arg, 0) + 1
+            elif isinstance(n, (ast.Global, ast.Nonlocal)):
+                for nm in n.names:
+                    stores[nm] = stores.get(nm, 0) + 2
+        for st in t.body:
+            nm = val = None
+            if isinstance(st, ast.Assign) and len(st.targets) == 1 and isinstance(st.targets[0], ast.Name):
+                nm, val = st.targets[0].id, st.value
+            elif isinstance(st, ast.AnnAssign) and isinstance(st.target, ast.Name) and st.value is not None:
+                nm, val = st.target.id, st.value
+            if nm is None or stores.get(nm, 0) != 1:
+                continue
+            shouting = nm.strip("_").isupper() and len(nm.strip("_")) >= 3
+            if not (shouting or _private(nm)):
+                continue
+            if isinstance(val, ast.Constant) and isinstance(val.value, (str, int)) and not isinstance(val.value, bool):
+                consts.setdefault(mod, {})[nm] = val
+    if not consts:
+        return 0
+    n_sites = 0
+    for mod, t in trees.items():
+        local: Dict[str, ast.Constant] = dict(consts.get(mod, {}))
+        mod_alias: Dict[str, str] = {}
+        for st in t.body:
+            if isinstance(st, ast.ImportFrom) and st.module:
+                src = st.module if st.level == 0 else None
+                if src is None:
+                    # relative import: resolve against this module's package
+                    base_ = mod.split(".")[: -st.level]
+                    src = ".".join(base_ + ([st.module] if st.module else []))
+                for a in st.names:
+                    if src in consts and a.name in consts[src]:
+                        local[a.asname or a.name] = consts[src][a.name]
+                    full = src + "." + a.name
+                    if full in consts:
+                        mod_alias[a.asname or a.name] = full
+            elif isinstance(st, ast.Import):
+                for a in st.names:
+                    if a.name in consts and a.asname:
+                        mod_alias[a.asname] = a.name
+        # names re-bound locally (parameters, loop variables) shadow the constant in that module: skip them
+        shadow: Set[str] = set()
+        for n in ast.walk(t):
+            if isinstance(n, ast.arg) and n.arg in local:
+                shadow.add(n.arg)
+            elif isinstance(n, ast.Name) and isinstance(n.ctx, ast.Store) and n.id in local and n.id not in consts.get(mod, {}):
+                shadow.add(n.id)
+        for parent in list(ast.walk(t)):
+            for fld, val in ast.iter_fields(parent):
+                items = val if isinstance(val, list) else [val]
+                for i, v in enumerate(items):
+                    new = None
+                    if isinstance(v, ast.Name) and isinstance(v.ctx, ast.Load) and v.id in local and v.id not in shadow:
+                        new = local[v.id]
+                    elif isinstance(v, ast.Attribute) and isinstance(v.ctx, ast.Load) and isinstance(v.value, ast.Name) and v.value.id in mod_alias and v.attr in consts[mod_alias[v.value.id]]:
+                        new = consts[mod_alias[v.value.id]][v.attr]
+                    if new is not None:
+                        c = ast.copy_location(ast.Constant(value=new.value), v)
+                        if isinstance(val, list):
+                            val[i] = c
+                        else:
+                            setattr(parent, fld, c)
+                        n_sites += 1
+    return n_sites
+
+
+def _baseline_defs() -> Set[str]:
+    try:
+        from .baseline_defs import DEFS
+
+        return set(DEFS)
+    except Exception:
+        return set()
+
+
+def _new_helpers(trees: Dict[str, ast.Module], anchors: Set[str], method_count: Dict[str, int]):
+    """Definitions that the audited tree does not have (sa/baseline_defs.py) and that no rule names: a
+    helper introduced by a later change, public or private, in whatever module.  It is read through at its
+    call sites when its name is defined once in the whole package and its body has one of the helper shapes."""
+    base = _baseline_defs()
+    if not base:
+        return {}, {}
+    # a definition the audited tree does not have cannot be one the rules mean, unless a rule looks functions
+    # up under that very name (role names such as reverse_lookup)
+    anchors = whole_string_names()
+    count: Dict[str, int] = {}
+    for t in trees.values():
+        for n in ast.walk(t):
+            if isinstance(n, _FUNC + (ast.ClassDef,)):
+                count[n.name] = count.get(n.name, 0) + 1
+    out: Dict[str, _Helper] = {}
+    home: Dict[str, str] = {}
+    for mod, t in trees.items():
+        for st in t.body:
+            cands = []
+            if isinstance(st, ast.FunctionDef):
+                cands.append((st, None))
+            elif isinstance(st, ast.ClassDef):
+                cands += [(s_, st) for s_ in st.body if isinstance(s_, ast.FunctionDef)]
+            for fn, cls in cands:
+                if fn.name in base or fn.name.startswith("__"):
+                    continue
+                if any(isinstance(d, ast.Name) and d.id == "classmethod" for d in fn.decorator_list):
+                    continue
+                k = _classify(fn)
+                if k and not _calls_name(fn, fn.name):
+                    if cls is not None and not fn.args.args and not fn.decorator_list:
+                        continue
+                    h_ = _Helper(fn, cls, k)
+                    if fn.name not in anchors and count.get(fn.name) == 1:
+                        out[fn.name] = h_
+                        home[fn.name] = mod
+                    if cls is not None and not h_.static:
+                        # `self.m(..)` inside the class itself resolves without looking at the name alone
+                        out[cls.name + "." + fn.name] = h_
+                        home[cls.name + "." + fn.name] = mod
+    return out, home
+
+
+def expand_new_properties(trees: Dict[str, ast.Module], anchors: Set[str], method_count: Dict[str, int]) -> List[str]:
+    """`x.p` for a @property p that the audited tree does not define, defined once in the package, whose body
+    is a single returned expression over `self`: read as that expression."""
+    base = _baseline_defs()
+    notes: List[str] = []
+    if not base:
+        return notes
+    anchors = whole_string_names()
+    count: Dict[str, int] = {}
+    fields: Set[str] = set()
+    for t in trees.values():
+        for n in ast.walk(t):
+            if isinstance(n, _FUNC + (ast.ClassDef,)):
+                count[n.name] = count.get(n.name, 0) + 1
+            elif isinstance(n, ast.AnnAssign) and isinstance(n.target, ast.Name):
+                fields.add(n.target.id)
+    props: Dict[str, ast.FunctionDef] = {}
+    for t in trees.values():
+        for c in ast.walk(t):
+            if not isinstance(c, ast.ClassDef):
+                continue
+            for fn in c.body:
+                if not isinstance(fn, ast.FunctionDef) or fn.name in base or fn.name in anchors or fn.name in fields or count.get(fn.name) != 1:
+                    continue
+                if len(fn.decorator_list) != 1 or not (isinstance(fn.decorator_list[0], ast.Name) and fn.decorator_list[0].id == "property"):
+                    continue
+                body = _helper_body(fn)
+                if len(body) == 1 and isinstance(body[0], ast.Return) and body[0].value is not None and len(fn.args.args) == 1:
+                    if not any(isinstance(x, (ast.Lambda, ast.Yield, ast.Await)) for x in ast.walk(body[0].value)):
+                        props[fn.name] = fn
+    if not props:
+        return notes
+    n_sites: Dict[str, int] = {}
+    for t in trees.values():
+        for parent in list(ast.walk(t)):
+            if isinstance(parent, ast.FunctionDef) and parent.name in props and props[parent.name] is parent:
+                continue
+            for fld, val in ast.iter_fields(parent):
+                items = val if isinstance(val, list) else [val]
+                for i, v in enumerate(items):
+                    if isinstance(v, ast.Attribute) and isinstance(v.ctx, ast.Load) and v.attr in props and _simple_arg(v.value):
+                        fn = props[v.attr]
+                        if any(x is v for x in ast.walk(fn)):
+                            continue
+                        comp_vars = {x.id for g in ast.walk(fn) if isinstance(g, ast.comprehension) for x in ast.walk(g.target) if isinstance(x, ast.Name)}
+                        e = _Subst({fn.args.args[0].arg: v.value}, {c_: c_ + "__p" for c_ in comp_vars}).visit(copy.deepcopy(_helper_body(fn)[0].value))
+                        e = ast.copy_location(e, v)
+                        ast.fix_missing_locations(e)
+                        if isinstance(val, list):
+                            val[i] = e
+                        else:
+                            setattr(parent, fld, e)
+                        n_sites[v.attr] = n_sites.get(v.attr, 0) + 1
+    for k, v in sorted(n_sites.items()):
+        notes.append(f"new property {k}: {v} read(s) replaced by its expression")
     return notes
